@@ -73,7 +73,8 @@ def strategy_impl(draw, tier):
         k = draw(st.integers(1, len(names)))
         opax = draw(st.permutations(names))[:k]
         pos = {n: draw(st.sampled_from([p for p in by[n]["positions"] if p in ("center", "left", "right")] or ["center"])) for n in opax}
-        widths = {n: [draw(st.integers(0, 2)), draw(st.integers(0, 2))] for n in opax}
+        # mostly narrow stencils; now and then a pad as wide as, or wider than, the axis itself
+        widths = {n: [draw(st.sampled_from([0, 1, 2, 0, 1, 2, by[n]["n"], by[n]["n"] + 2])), draw(st.integers(0, 2))] for n in opax}
         extra = draw(gen.extra_dims())
         dl = [gen.dim_name(n, pos[n]) for n in opax] + [e[0] for e in extra]
         sizes = {gen.dim_name(n, pos[n]): gen.pos_len(by[n]["n"], pos[n]) for n in opax}
@@ -362,6 +363,12 @@ def run_ufunc(sub, chunks, scheduler, classes, ctx):
     classes.append(f"ufunc:{mode}")
     core = [gen.dim_name(n, sub["pos"][n]) for n in opax]
     ch = dict(chunks)
+    wider = any(max(sub["widths"][n]) > sum(ch[d]) for d, n in zip(core, opax))
+    if wider and sub["boundary"] == "periodic":
+        classes.append("periodic-pad-wider-than-axis")
+        if ctx is not None and ctx.known("C06-lazy-periodic-pad-wider-than-axis"):
+            ctx.count_excluded("C06-lazy-periodic-pad-wider-than-axis")
+            return "excluded"
     if mode == "parallelized":
         for d in core:  # xarray itself refuses chunked core dims with dask='parallelized'
             ch[d] = [sum(ch[d])]
